@@ -397,3 +397,15 @@ def check(ctx):
                        '%s)' % str(e)[:120])
     ctx.borrow('C04.PARSE', _driver, only=['C01.TEXT-DRIVER'])
 
+    # ... the word is cut into kind and X at its *first* colon only (a role
+    # name such as compute:admin keeps its colons) and the check is built
+    # from exactly these two parts (= C05.FALLBACK)
+    def _leaf(ctx):
+        from . import c05 as _c05
+        try:
+            _c05.check_fallback(ctx)
+        except AnalysisError as e:
+            ctx.assume('C04.PARSE(FALLBACK) not decided (C05 declines: %s)'
+                       % str(e)[:120])
+    ctx.borrow('C04.PARSE', _leaf, only=['C05.FALLBACK'])
+
